@@ -835,6 +835,31 @@ func (x *Exec) bindLocals(env *SpecEnv, fr *Frame) {
 		}
 		env.vars[name] = TV{v, nr.V.Type()}
 	}
+	// a variable that has only been merged so far (a phi of the current or an enclosing loop header / join
+	// block carries the variable's name) and not yet mentioned by a debug reference on this path
+	for v, val := range fr.env {
+		ph, ok := v.(*ssa.Phi)
+		if !ok || ph.Comment == "" || ph.Comment == "rangeindex" {
+			continue
+		}
+		if _, taken := env.vars[ph.Comment]; taken {
+			continue
+		}
+		if ph.Block() != fr.block && !x.blockDominatesByLoop(fr, ph.Block()) {
+			continue
+		}
+		env.vars[ph.Comment] = TV{val, ph.Type()}
+	}
+}
+
+// blockDominatesByLoop: b is the header of a loop that contains the frame's current block.
+func (x *Exec) blockDominatesByLoop(fr *Frame, b *ssa.BasicBlock) bool {
+	for _, l := range x.loopsOf(fr.fn) {
+		if l.header == b && l.body[fr.block] {
+			return true
+		}
+	}
+	return false
 }
 
 // frameEnv is the spec environment at an arbitrary program point of a frame:
